@@ -7,7 +7,10 @@
    extracted specification (judge13) on the implementation's output. *)
 From QV Require Import Spec.MsgWriterS.
 From QV Require Import Base.ListX Model.MsgWriter Proofs.MsgWriterP Proofs.MsgWriterScanP
-     Proofs.MsgWriterNameP Proofs.MsgWriterTabP Proofs.MsgWriterTopP.
+     Proofs.MsgWriterNameP Proofs.MsgWriterTabP Proofs.MsgWriterTopP Proofs.MsgWriterInvP
+     Proofs.MsgWriterClosP Proofs.MsgWriterNameSP Proofs.MsgWriterLayP Proofs.MsgWriterOpP
+     Proofs.MsgWriterStepP Proofs.MsgWriterMsgP Proofs.MsgWriterDecP Proofs.MsgWriterHdrP Proofs.MsgWriterRtP.
+From QV Require Import Spec.MsgWriterAbsS.
 
 (* What is written for an owner name is either the plain wire form, or k leading labels and
    ONE pointer; the pointer leads strictly before the first octet of this name, to a label
@@ -72,6 +75,117 @@ Theorem c13_uncompressible_plain : forall n w pr w', write_uncompressed_name n w
   slice (w_buf w') (w_cursor w) (w_cursor w') = nm_wire n /\ w_cursor w' = w_cursor w + length (nm_wire n).
 Proof. exact uncompressed_plain. Qed.
 
+(* ---- the anchor invariant, for ALL operation sequences ------------------------------------
+   [L] is the ghost set of label starts of the names written so far; [NInv w h L] says: L is
+   closed under the decoding step, every step from a member reads only octets of [12, cursor)
+   outside the RDLENGTH field [h, h+2) of the record being written (so neither header writes nor
+   RDLENGTH back-patching nor later appends change what a member decodes to), every member
+   decodes, every pointer met leads strictly backwards to another member (a label, never a
+   pointer), and the three compression anchors are members. *)
+
+(* A name write under the invariant: never a panic; what is emitted is the plain wire form or
+   k < |n| labels plus ONE pointer whose target is a member of the OLD set L (a label start of a
+   name written earlier), strictly before this name; the invariant holds again for a set L' that
+   only gained offsets inside the octets just written; the PriorName handed back is a member. *)
+Theorem c13_owner_pointer_into_label_starts : forall hl h n w L, NInv w hl L -> wf_name n ->
+  hint_contract h n w -> hint_in h w L ->
+  match write_hinted_name h n w with
+  | Ok (pr, w') => emittedL n (w_buf w') (w_cursor w) (w_cursor w') L /\
+                   exists L', grew w w' L L' /\ NInv w' hl L' /\ (forall p, pr = Some p -> L' (p_ptr p)) /\
+                              emittedT (exactf (w_mode w)) n (w_buf w') (w_cursor w) (w_cursor w') L L'
+  | Err (e, _) => e = Truncation
+  | Panic => False
+  end.
+Proof. exact hinted_into_label_starts. Qed.
+
+Theorem c13_unhinted_pointer_into_label_starts : forall hl n w L, NInv w hl L -> wf_name n ->
+  match write_unhinted_name n w with
+  | Ok (pr, w') => emittedL n (w_buf w') (w_cursor w) (w_cursor w') L /\
+                   exists L', grew w w' L L' /\ NInv w' hl L' /\ (forall p, pr = Some p -> L' (p_ptr p)) /\
+                              emittedT (exactf (w_mode w)) n (w_buf w') (w_cursor w) (w_cursor w') L L'
+  | Err (e, _) => e = Truncation
+  | Panic => False
+  end.
+Proof. exact unhinted_into_label_starts. Qed.
+
+(* Every operation preserves the full invariant [AInv] (which contains NInv for the whole state,
+   the names every anchor and every live hint-vector slot stands for, and the QNAME anchor's
+   independence of everything at or above rr_start) -- in particular across the RDLENGTH
+   back-patch of add_rr, rollbacks of failed operations and clear_rrs. *)
+Theorem c13_anchor_invariant_all_ops : forall d g L o, AInv d g L -> op_wf o -> op_contract d g o ->
+  match step d o with
+  | Ok (d', r) => exists L', AInv d' (gstep d g o r) L'
+  | _ => False
+  end.
+Proof. exact step_ok_all. Qed.
+
+(* The finished message of ANY operation sequence obeying the hint contract: there is a set LF of
+   offsets in [12, len) that is closed under decoding inside the message: each member holds a label
+   length octet, the next position is a member or a pointer leading strictly backwards to a member,
+   and every member decodes to a name reading only the message body. *)
+Theorem c13_message_pointers_valid_partial : forall buf limit w0 ops, writer_new buf limit = Ok w0 ->
+  run_contract (mkD w0 []) g0 ops ->
+  exists rr, run_writer buf limit ops = Ok rr /\
+    match rr_final rr with
+    | Some (len, b) =>
+      exists LF, closed b header_size len (length b) LF /\ decodable b len LF /\ len <= length b
+    | None => True
+    end.
+Proof. exact run_writer_ok. Qed.
+
+(* MESSAGE LEVEL.  The finished message of ANY operation sequence obeying the hint contract has a
+   layout [yF] (questions, then records incl. the OPT/TSIG pseudo-records) tiling [12, len) whose name
+   chunks stand, in order, for the names of the abstract message of the succeeded operations; by
+   [PLay] / [chunk_ok] / [shape_at] every chunk is the plain wire form, or k < |name| labels followed
+   by ONE pointer pp with pp strictly before the chunk and pp a member of LF, and LF is EXACTLY the set
+   of label starts (root octets included) of the chunks of the layout ([p_tight]); chunks of
+   uncompressible RDATA names (SRV, Chaosnet A; [parts_at]: comp = false -> plain) carry no pointer, and
+   RDATA without name components is raw octets ([parts_shape] against the regenerated component table,
+   which has no compressible name outside RFC 1035's types: c13_no_compressible_component). *)
+Theorem c13_message_pointers_valid : forall buf limit w0 ops, writer_new buf limit = Ok w0 ->
+  run_contract (mkD w0 []) g0 ops ->
+  exists rr, run_writer buf limit ops = Ok rr /\
+    match rr_final rr with
+    | Some (len, b) =>
+      exists d wF LF yF,
+        run (mkD w0 []) ops = Ok (d, rr_outcomes rr, true) /\
+        (forall t, w_tsig (d_w d) = Some t -> tsig_wf t) /\
+        len = w_cursor wF /\ b = w_buf wF /\ NInv wF (length b) LF /\
+        PLay b LF yF (w_rr_start (d_w d)) len /\
+        Forall2 q_desc (y_qs yF) (am_qs (areplay am0 ops (rr_outcomes rr))) /\
+        Forall2 rr_desc2 (y_rrs yF)
+          (am_an (areplay am0 ops (rr_outcomes rr)) ++ am_ns (areplay am0 ops (rr_outcomes rr)) ++
+           am_ar (areplay am0 ops (rr_outcomes rr)) ++ pseudo (d_w d)) /\
+        FLay (d_w d) (mkLay (y_qs yF) (firstn (length (y_rrs yF) - length (pseudo (d_w d))) (y_rrs yF)))
+             (areplay am0 ops (rr_outcomes rr)) /\
+        slice b 4 12 = be16 (w_qd (d_w d)) ++ be16 (w_an (d_w d)) ++ be16 (w_ns (d_w d)) ++ be16 (w_ar (d_w d)) /\
+        agree 4 (w_buf (d_w d)) b
+    | None => True
+    end.
+Proof. exact run_writer_layout. Qed.
+
+(* THROUGH THE SPECIFICATION'S OWN CHECKER.  For every contract-obeying operation sequence the finished
+   message decodes under the independent RFC 1035 decoder, and the decoded message passes the pointer
+   rules of Spec/MsgWriterS.v (check_qs / check_rrs / check_name / check_parts -- the core of judge13):
+   walking the names in message order, every pointer that ends a name's first chunk leads strictly before
+   that name to a label start (root octets included) collected from the names decoded BEFORE it; the
+   uncompressible RDATA names (SRV, Chaosnet A) carry no pointer; and an item written while compression
+   was DISABLED carries no pointer at all -- for any expected-item lists whose a_nocomp flags are those
+   of the mode each item of the abstract message was written in ([qflag], [rflag]). *)
+Theorem c13_spec_pointer_rules_hold : forall buf limit w0 ops, writer_new buf limit = Ok w0 ->
+  run_contract (mkD w0 []) g0 ops -> Forall op_wf ops -> Forall op_wf2 ops -> Forall op_wf3 ops ->
+  exists rr, run_writer buf limit ops = Ok rr /\
+    match rr_final rr with
+    | Some (len, b) =>
+      exists m, decode_msg (firstn len b) = Some m /\
+        ptr_ok (firstn len b) m (am_qs (areplay am0 ops (rr_outcomes rr))) (am_an (areplay am0 ops (rr_outcomes rr)))
+          (am_ns (areplay am0 ops (rr_outcomes rr)))
+          (am_ar (areplay am0 ops (rr_outcomes rr)) ++
+           pseudo_of (am_mode (areplay am0 ops (rr_outcomes rr))) (hreplay ah0 ops (rr_outcomes rr)))
+    | None => True
+    end.
+Proof. exact pointer_rules. Qed.
+
 (* Non-vacuity: after a question for "a." in a concrete buffer the hypotheses hold
    (QNAME anchor at offset 12), and writing "www.a." emits "www" + a pointer to offset 12. *)
 Definition ex_w : writer :=
@@ -115,6 +229,18 @@ Example c13_judge_example :
   end.
 Proof. vm_compute. split; [reflexivity|discriminate]. Qed.
 
+(* the anchor invariant is satisfiable (fresh writer), and ex_w of the example above satisfies NInv's
+   ingredients priors_ok / nb *)
+Example c13_invariant_nonvacuous :
+  match writer_new (repeat 0%N 64) 64 with
+  | Ok w0 => AInv (mkD w0 []) g0 L0
+  | _ => False
+  end.
+Proof.
+  destruct (writer_new (repeat 0%N 64) 64) as [w0| |] eqn:E; [|vm_compute in E; discriminate..].
+  eapply AInv_new; eauto.
+Qed.
+
 Print Assumptions c13_owner_pointer_valid.
 Print Assumptions c13_unhinted_pointer_valid.
 Print Assumptions c13_anchor_valid.
@@ -124,3 +250,9 @@ Print Assumptions c13_disabled_unhinted.
 Print Assumptions c13_no_compressible_component.
 Print Assumptions c13_srv_ch_a_components.
 Print Assumptions c13_uncompressible_plain.
+Print Assumptions c13_owner_pointer_into_label_starts.
+Print Assumptions c13_unhinted_pointer_into_label_starts.
+Print Assumptions c13_anchor_invariant_all_ops.
+Print Assumptions c13_message_pointers_valid_partial.
+Print Assumptions c13_message_pointers_valid.
+Print Assumptions c13_spec_pointer_rules_hold.
